@@ -103,10 +103,11 @@ def run_sv(text, topmod, design, seq, trace, strict, flat=False):
   sim = d.simulate(topmod, strict_lrm_index_sign=strict)
 
   def split(p):
-    p = p.replace(".", "__")                       # interface member ports are named <ifc>__<member>
-    if "[" not in p: return p, ()
-    base, rest = p.split("[", 1)
-    return base, tuple(int(x) for x in rest.rstrip("]").split("]["))
+    # interface member ports are named <ifc>__<member>; every list index of the path (list of interfaces, list of
+    # ports) moves to the end, in order: ifc[1].msg[0] is element [1][0] of the unpacked array ifc__msg
+    import re
+    idx = tuple(int(x) for x in re.findall(r"\[(\d+)\]", p))
+    return re.sub(r"\[\d+\]", "", p).replace(".", "__"), idx
 
   def setp(p, v):
     if not flat:
